@@ -12,6 +12,7 @@ Mismatch categories (which property a divergence contradicts):
   held    which objects hold a value in memory differs                                    -> C13 (noted elsewhere)
   share   object identity across member chains differs from "same computation"           -> C13
   error   a call raised although the spec says it succeeds (or vice versa)
+  construct  Chain(...) / MultiChain(...) raised for a configuration the spec resolves          -> C08, C09, C13
 """
 import json
 import os
@@ -110,6 +111,9 @@ class Epoch:
                 for node in self.model.res[rc]:
                     objd[id(self.task(ch, node))] = self.model.did[(rc, node)]
             self.slots[act['s']] = dict(rcs=rcs, mc=mc, chains=chains, objd=objd)
+            if mc is not None:
+                out['tasknames'] = [sorted(ch.tasks) for ch in chains]
+                out['standalone'] = [sorted(self._new_chains([rc])[1][0].tasks) for rc in rcs]
             return out
         sl = self.slots[act['s']]
         if name == 'Request':
@@ -171,6 +175,8 @@ class Epoch:
             if out['value'] != m.ref(d):
                 mm.append(('value', f"request of {act['n']} in {sl['rcs'][act['m'] - 1]} returned {out['value']!r}, "
                                     f"reference value is {m.ref(d)!r}"))
+        if out.get('tasknames') and out['tasknames'] != out['standalone']:
+            mm.append(('share', f"member chains have tasks {out['tasknames']}, the standalone chains {out['standalone']}"))
         # -- runs of this call
         known = {}
         for sl in self.slots.values():
@@ -213,6 +219,11 @@ class Epoch:
                         vis_exp = exp['disk'][m.keyof[d] - 1] != 0
                         if bool(t.has_data) != vis_exp:
                             mm.append(('visible', f'{node} of {rc}: has_data={t.has_data}, spec says {vis_exp}'))
+                    if sl['mc'] is not None and kind != 'mem':
+                        ps = self.paths().get(d, set())
+                        if str(t.data_path) not in ps:
+                            mm.append(('share', f'{node} of {rc} in the MultiChain is stored at {t.data_path.name}, the '
+                                                f'standalone chain stores it at {sorted(Path(p).name for p in ps)}'))
                     if d in seen and seen[d] is not t:
                         mm.append(('share', f'{node} of {rc} is the same computation as another member\'s task '
                                             f'but a distinct object'))
@@ -260,7 +271,8 @@ def _child_epoch(model, base, work, opts, steps, carry):
             mm = ep.compare(act, exp, out)
         except Exception as e:  # the library raised where the spec allows no error
             tb = traceback.format_exc()
-            mm = [('error', f"{act['name']} raised {type(e).__name__}: {e}"), ('trace', tb[-1500:])]
+            cat = 'construct' if act['name'] == 'NewChain' else 'error'
+            mm = [(cat, f"{act['name']} raised {type(e).__name__}: {e}"), ('trace', tb[-1500:])]
         done += 1
         if mm:
             return done, mm
